@@ -331,21 +331,32 @@ impl ZoSortedStrVec {
     /// # Returns
     /// An iterator over string slices in the specified range
     pub fn range(&self, start: &str, end: &str) -> ZoSortedStrVecRange<'_> {
-        let start_idx = match self.binary_search(start) {
-            Ok(idx) => idx,
-            Err(idx) => idx,
-        };
-
-        let end_idx = match self.binary_search(end) {
-            Ok(idx) => idx,
-            Err(idx) => idx,
-        };
+        // binary_search may land on any of several equal strings; the range
+        // starts at the first string >= start and ends before the first string >= end
+        let start_idx = self.lower_bound(start);
+        let end_idx = self.lower_bound(end);
 
         ZoSortedStrVecRange {
             vec: self,
             current: start_idx,
             end: end_idx.min(self.len),
         }
+    }
+
+    /// Index of the first string that is not less than `needle` (len() if there is none)
+    fn lower_bound(&self, needle: &str) -> usize {
+        let mut left = 0;
+        let mut right = self.len;
+
+        while left < right {
+            let mid = left + (right - left) / 2;
+            match self.get(mid) {
+                Some(mid_str) if mid_str < needle => left = mid + 1,
+                _ => right = mid,
+            }
+        }
+
+        left
     }
 
     /// Get total memory usage in bytes
